@@ -280,7 +280,11 @@ func (check typecheck) binaryExpr(n *node) error {
 		return check.comparison(n)
 	}
 
-	if !c0.typ.equals(c1.typ) {
+	// The result of a comparison has the type bool here, rather than being an untyped boolean:
+	// for && and ||, an operand of type bool is therefore tolerated with an operand of a defined boolean type.
+	boolMix := (a == aLand || a == aLor) && isBool(c0.typ) && isBool(c1.typ) && (c0.typ.cat == boolT || c1.typ.cat == boolT)
+
+	if !c0.typ.equals(c1.typ) && !boolMix {
 		return n.cfgErrorf("invalid operation: mismatched types %s and %s", c0.typ.id(), c1.typ.id())
 	}
 
